@@ -33,7 +33,9 @@ type PInputSpec struct {
 	P       uint `json:"p"`
 	Cap     int  `json:"cap"`
 	Prefill int  `json:"prefill,omitempty"`
-	Writers int  `json:"parked_writers,omitempty"` // > 0: that many goroutines keep sending to this (small) channel
+	Writers int  `json:"parked_writers,omitempty"`  // > 0: that many goroutines keep sending to this (small) channel
+	NilChan bool `json:"nil_channel,omitempty"`     // the input is a nil channel: never readable, never closed
+	Thief   bool `json:"second_consumer,omitempty"` // a goroutine of the harness also receives from this channel
 }
 
 type DivFault struct {
@@ -52,6 +54,7 @@ type PrioScenario struct {
 	FbCap          int          `json:"v1_feedback_capacity,omitempty"`
 	Script         []POp        `json:"script"`
 	Saturate       bool         `json:"saturate,omitempty"`
+	NeverEnds      bool         `json:"never_ends,omitempty"`                                   // an input is a nil channel: the discipline must not terminate on its own
 	Starved        bool         `json:"v1_some_priority_without_share,omitempty"`               // no progress is expected, only safety
 	StarveEndsAtRm *uint        `json:"without_share_until_this_priority_is_removed,omitempty"` // once RemoveInput of it has returned every remaining priority has a share
 	Fault          *DivFault    `json:"fault,omitempty"`
@@ -103,6 +106,8 @@ type prioResult struct {
 	PriosWith2      int
 	Log             []string
 	Aborted         string
+	Stolen          int
+	NeverEndedHeld  bool
 	Unstarved       bool
 	SatRemovals     int
 	ReAdds          int
@@ -144,6 +149,7 @@ type prioExec struct {
 
 	outClosed           bool
 	errClosed           bool
+	hasThief            bool
 	unstarved           bool // a Starved scenario whose removal has returned: liveness oracles apply from here on
 	satPaused           bool // saturation: a removal has changed the shares, the per-receive bound is off until the next checkpoint
 	ignoreErr           bool // this client never reads Err(): for it the closure of Output() is the termination
@@ -237,14 +243,14 @@ func (x *prioExec) onRecv(d Dlv) {
 		}
 		x.fail(prop, "tag", "item %+v written to the channel registered under priority %d was delivered tagged %d", d.It, in.P, d.Tag)
 	}
-	if x.sc.simple() || in.multi > 0 {
+	if x.sc.simple() || in.multi > 0 || in.thief {
 		// H handler goroutines race to enter Handle (or several writers race to send): only
 		// exactly-once is claimed, not order
 		if in.seen == nil {
 			in.seen = map[int]bool{}
 		}
 		if in.seen[d.It.Seq] {
-			x.fail("C02", "duplicate", "priority %d channel #%d: Handle was invoked twice for item seq %d", in.P, in.ID, d.It.Seq)
+			x.fail("C02", "duplicate", "priority %d channel #%d: item seq %d was delivered twice (or is an item that was never written: %+v)", in.P, in.ID, d.It.Seq, d.It)
 		}
 		in.seen[d.It.Seq] = true
 		in.recv++
@@ -352,9 +358,41 @@ func (x *prioExec) pull() int {
 		}
 		break
 	}
+	n += x.drainStolen()
 	x.pollErr()
 	x.pollCtl()
 	x.pollGraceful()
+	return n
+}
+
+// drainStolen books what the second consumers took out of the inputs themselves: such an item
+// was read from the channel exactly once - by somebody else than the discipline.
+func (x *prioExec) drainStolen() int {
+	n := 0
+	for _, in := range x.chans {
+		if !in.thief {
+			continue
+		}
+		for {
+			select {
+			case it := <-in.stolen:
+				if in.seen == nil {
+					in.seen = map[int]bool{}
+				}
+				if it.Ch != in.ID || in.seen[it.Seq] {
+					x.fail("C02", "duplicate", "priority %d channel #%d: item %+v was taken by the second consumer but was also delivered (or is not of this channel)", in.P, in.ID, it)
+				}
+				in.seen[it.Seq] = true
+				in.recv++
+				x.res.Stolen++
+				x.ctl.progress.Add(1)
+				n++
+				continue
+			default:
+			}
+			break
+		}
+	}
 	return n
 }
 
@@ -465,6 +503,7 @@ func (x *prioExec) checkTermination(what string) {
 	}
 	x.res.TermWay = "drained"
 	synctest.Wait() // let writers finish stamping; everything else is quiescent anyway
+	x.drainStolen()
 	x.pollCtl()
 	for _, in := range x.chans {
 		if in.removed {
@@ -596,9 +635,10 @@ func (x *prioExec) await(w time.Duration, cond func() bool) bool {
 	for !cond() {
 		rem := time.Until(deadline)
 		if rem <= 0 || x.termSeen {
+			x.drainStolen()
 			return cond()
 		}
-		if x.sc.isV1() || x.sc.simple() {
+		if x.sc.isV1() || x.sc.simple() || x.hasThief {
 			// termination of these is not signalled on the output: poll Err() in slices
 			if rem > 2*time.Microsecond {
 				rem = 2 * time.Microsecond
@@ -613,6 +653,7 @@ func (x *prioExec) await(w time.Duration, cond func() bool) bool {
 			x.onOutputClosed()
 		}
 		x.inRecv.Store(false)
+		x.drainStolen()
 		x.pollErr()
 		x.pollCtl()
 	}
@@ -727,6 +768,9 @@ func (x *prioExec) pickRelease(op POp) []int {
 }
 
 func (x *prioExec) do(op POp) {
+	if x.hasThief && (op.K == "P" || op.K == "A" || op.K == "B") {
+		return // with a second consumer on an input "an item is waiting" is not a fact the stepper can rely on
+	}
 	x.ctl.progress.Add(1)
 	switch op.K {
 	case "W":
@@ -810,8 +854,8 @@ func (x *prioExec) progressProbe() {
 		x.logf("probe: wrote to priority %d", in.P)
 	}
 	x.ctl.SetPhase("await-delivery-with-nothing-in-flight", "C06")
-	before := x.res.Received
-	ok := x.await(prioL, func() bool { return x.res.Received > before })
+	before := x.res.Received + x.res.Stolen
+	ok := x.await(prioL, func() bool { return x.res.Received+x.res.Stolen > before })
 	x.res.Probes++
 	if !ok && !x.termSeen && !x.mon.applied.Load() {
 		x.fail("C06", "no-progress-idle", "nothing in flight, no release outstanding and an input holds undelivered data, but nothing was delivered within %s (virtual)", prioL)
@@ -936,8 +980,8 @@ func (x *prioExec) loneBurstProbe(op POp) {
 				x.logf("lone burst: scheduler may wait for a feedback at %d of %d (vacant handlers cannot give every other priority one)", k, H)
 				return
 			}
-			before := x.res.Received
-			if x.await(prioL, func() bool { return x.res.Received > before }) {
+			before := x.res.Received + x.res.Stolen
+			if x.await(prioL, func() bool { return x.res.Received+x.res.Stolen > before }) {
 				continue
 			}
 			if !x.termSeen && !x.mon.applied.Load() {
@@ -1183,10 +1227,38 @@ func (x *prioExec) epilogue() {
 		return
 	}
 	for _, in := range x.inputs {
-		in.closeLater()
+		if !in.isNil {
+			in.closeLater()
+		}
 	}
 	if x.sc.isV1() {
 		x.callGraceful()
+	}
+	if x.sc.NeverEnds {
+		// everything else is closed, delivered and released; the nil input keeps the discipline
+		// alive for as long as we care to look (a closure is judged by checkTermination: that
+		// input was never closed)
+		for i := 0; i < 40 && !x.termSeen; i++ {
+			x.startRelease(x.pickRelease(POp{Mode: "all"}))
+			x.settle()
+			done := len(x.held) == 0
+			for _, in := range x.inputs {
+				if !in.isNil && in.recv < in.enq {
+					done = false
+				}
+			}
+			if done {
+				break
+			}
+		}
+		x.holdCheck(POp{D: 3000})
+		if !x.termSeen {
+			x.res.NeverEndedHeld = true
+		}
+		if x.sys.cancel != nil {
+			x.sys.cancel()
+		}
+		return
 	}
 	faulted := func() bool { return x.mon != nil && x.mon.faulted.Load() }
 	x.ctl.SetPhase("epilogue-deliver-everything", "C06")
@@ -1195,8 +1267,8 @@ func (x *prioExec) epilogue() {
 		if x.allDelivered() && len(x.held) == 0 {
 			break
 		}
-		before := x.res.Received
-		ok := x.await(prioL, func() bool { return x.res.Received > before || faulted() })
+		before := x.res.Received + x.res.Stolen // (what a second consumer took is progress of the input too)
+		ok := x.await(prioL, func() bool { return x.res.Received+x.res.Stolen > before || faulted() })
 		if faulted() {
 			break
 		}
@@ -1330,6 +1402,11 @@ func runPrioV(sc PrioScenario, ctl *bubbleCtl) *prioResult {
 		res.Written += spec.Prefill
 		total += spec.Prefill
 		in.multi = spec.Writers
+		if spec.NilChan {
+			in.ch, in.isNil = nil, true
+		}
+		in.thief = spec.Thief && spec.Cap > 0
+		x.hasThief = x.hasThief || in.thief
 		x.inputs[spec.P] = in
 		x.chans = append(x.chans, in)
 		prios = append(prios, spec.P)
@@ -1381,8 +1458,11 @@ func runPrioV(sc PrioScenario, ctl *bubbleCtl) *prioResult {
 	}
 	x.sys = sys
 	for _, in := range x.chans {
-		if in.multi == 0 {
+		if in.multi == 0 && !in.isNil {
 			in.startWriter(x.abort, &x.wg)
+		}
+		if in.thief {
+			in.startThief(x.abort, &x.wg, sc.Seed+uint64(in.ID))
 		}
 	}
 	for _, op := range sc.Script {
